@@ -102,7 +102,7 @@ def gen_progs(r: random.Random, nth: int, max_calls: int = 4) -> list[list[dict[
 
 def run_file_case(lock_kind: str, progs: list[list[dict[str, Any]]], seed: int, tmp: str, plan: sysfi.Plan | None = None,
                   grace: int | None = 30, schedule: list[int] | None = None, pct: int | None = None, tag: str = "",
-                  clock: str = "sleepers") -> dict[str, Any]:
+                  clock: str = "sleepers", max_steps: int = 200000) -> dict[str, Any]:
     """Run the programs (one backend object + lock object per thread) under sched+sysfi."""
     warnings.simplefilter("ignore")
     path = os.path.join(tmp, "jf_%d_%d%s.log" % (os.getpid(), seed, tag))
@@ -110,7 +110,8 @@ def run_file_case(lock_kind: str, progs: list[list[dict[str, Any]]], seed: int, 
         if os.path.lexists(p):
             os.unlink(p)
     r = random.Random(seed)
-    s = sched.Sched(rng=random.Random(seed), schedule=schedule, pct_depth=pct, trace_prefixes=sched.optuna_prefixes("storages/journal/_file.py"))
+    s = sched.Sched(rng=random.Random(seed), schedule=schedule, pct_depth=pct, max_steps=max_steps,
+                    trace_prefixes=sched.optuna_prefixes("storages/journal/_file.py"))
     plan = plan or sysfi.Plan()
     plan.chunks = plan.chunks or 1
     sys_ = sysfi.Sys(s, plan, r)
